@@ -11,6 +11,7 @@ from vf.sim.c19_util import (
     instrument_merges, launched_instances, norm_pool, run_steps,
     scheduler_fields)
 from vf.sim.drive import SCase, outcome_maps, point_maps, run_async
+from vf.sim.model import Model
 
 PROP_ID = 'C19'
 LEVEL = 'exploration'
@@ -26,7 +27,9 @@ RULE = (
     'Generated workflow (1-3 recurrences, offsets, absolute triggers, OR, '
     'custom/optional outputs; optional runahead limit, retry delay lists '
     '(PT0S, or PT5S/PT3S so that tasks wait for a retry), one xtrigger '
-    'whose k-th call succeeds) + outcome assignment + a history of 1-3 '
+    'whose k-th call succeeds) + outcome assignment (with early failures, '
+    'and one first-cycle task that really retries when retries are on) + a '
+    'history of 0-6 warm-up rounds of the fair schedule and 1-3 '
     'segments, each a list of <=14 steps ending in a `restart` step (real '
     '`stop --now` or clean `stop`, jobs optionally progressing while the '
     'scheduler is down with their messages lost, new Scheduler on the same '
@@ -96,7 +99,8 @@ ASSUMPTIONS = [
 ]
 
 PURE_OPS = ['loop', 'loop', 'ret', 'ret', 'adv', 'adv', 'del', 'del', 'round',
-            'round', 'round']
+            'round', 'round', 'round', 'round', 'round']
+MIX_OPS = ['loop', 'loop', 'ret', 'adv', 'del', 'round', 'round', 'round']
 CMD_OPS = ['hold', 'hold', 'release', 'hold-point', 'release-hold-point',
            'stop-point', 'stop-task', 'trigger-new', 'trigger-new',
            'broadcast', 'broadcast', 'clear-broadcast']
@@ -121,12 +125,12 @@ def _steps(draw, ops, max_size, min_size=0):
 @st.composite
 def cases(draw):
     kind = draw(st.sampled_from(['pure', 'cmd', 'cmd']))
-    retries = draw(st.integers(0, 2)) == 0
+    retries = draw(st.booleans())
     spec = draw(wfspecs({'max_tasks': 5, 'max_fcp': 4, 'retries': retries}))
     if draw(st.integers(0, 2)) == 0:
         spec['extra']['runahead'] = 'P%d' % draw(st.integers(0, 3))
     xt = None
-    if draw(st.integers(0, 3)) == 0:
+    if draw(st.integers(0, 2)) == 0:
         # xtrigger on the first right-hand task of some section
         cands = [(i, ln['rhs'][0]) for i, sec in enumerate(spec['sections'])
                  for ln in sec['lines'][:1]]
@@ -134,9 +138,20 @@ def cases(draw):
             i, t = draw(st.sampled_from(cands))
             xt = {'task': t, 'section': i, 'label': 'xa',
                   'per_point': draw(st.booleans()),
-                  'after': draw(st.lists(st.integers(0, 2), min_size=1,
-                                         max_size=3))}
-    if retries and draw(st.booleans()):
+                  'after': draw(st.lists(st.sampled_from([0, 0, 1, 2]),
+                                         min_size=1, max_size=3))}
+    forced_retry = None
+    if retries:
+        # make sure one first-cycle task really retries
+        first = sorted({t for (t, p) in Model(spec).instances()
+                        if p == spec['icp']
+                        and not spec['opt'].get(t, {}).get('fail_required')})
+        if first:
+            forced_retry = draw(st.sampled_from(first))
+            spec['retries'][forced_retry] = {
+                'exec': draw(st.integers(1, 2)),
+                'submit': draw(st.integers(0, 1))}
+    if retries and draw(st.integers(0, 3)):
         # real retry delays: the task waits (with its outputs of the failed
         # try) until the drain's clock passes them
         for r in spec['retries'].values():
@@ -145,9 +160,28 @@ def cases(draw):
             if r.get('submit'):
                 r['submit_delays'] = ['PT3S'] * r['submit']
     outcomes = draw(outcome_maps(spec, max_subs=2 if retries else 1))
-    ops = PURE_OPS if kind == 'pure' else PURE_OPS + CMD_OPS
+    # early failures, so that stops catch tasks retained as failed /
+    # waiting for a retry (with the outputs of the failed try)
+    early = [(t, p) for (t, p) in Model(spec).instances()
+             if p <= spec['icp'] + 1
+             and not spec['opt'].get(t, {}).get('fail_required')]
+    if early and draw(st.integers(0, 3)):
+        for t, p in draw(st.lists(st.sampled_from(early), min_size=1,
+                                  max_size=2, unique=True)):
+            lst = [{'final': 'failed'}]
+            if spec['retries'].get(t, {}).get('exec'):
+                lst.append({'final': draw(st.sampled_from(
+                    [None, None, 'failed']))})
+            outcomes[f'{p}/{t}'] = lst
+    if forced_retry is not None:
+        outcomes[f'{spec["icp"]}/{forced_retry}'] = [
+            {'final': 'failed'},
+            {'final': draw(st.sampled_from([None, None, 'failed']))}]
+    ops = PURE_OPS if kind == 'pure' else MIX_OPS + CMD_OPS
     nseg = draw(st.sampled_from([1, 1, 2, 3]))
-    sched = []
+    # warm-up: k rounds of the fair schedule, so that stops also fall into
+    # the middle of the run (failed / retrying / multi-cycle pools)
+    sched = [['round', 0]] * draw(st.sampled_from([0, 0, 1, 2, 3, 4, 5, 6]))
     for _ in range(nseg):
         sched += _steps(draw, ops, 14, min_size=1)
         sched.append(['restart', draw(st.integers(0, 5))])
